@@ -38,6 +38,27 @@
 (* EQUALITY; the trace driver logs the two integer parts of every float64  *)
 (* value.  For Grad/Jac the second batch of cotangents (CtB) is the K.     *)
 (*                                                                         *)
+(* HISTORIES of applications of ONE transform OBJECT.  A transform is       *)
+(* constructed once and may be applied any number of times (Grad / Jac     *)
+(* with retain_graph).  The specification: a transform is a FUNCTION OF    *)
+(* ITS INPUT DICTIONARY ONLY - the result of application n is T(input n),  *)
+(* what a freshly constructed equal transform returns on that input,       *)
+(* whatever the object was applied to before (batches of other row counts  *)
+(* included), for any chunk size.  Program part: action ApplyAgain extends *)
+(* a call into a history of up to MaxApps batches of cotangents (different *)
+(* pattern per application, row counts in 1..MaxRows); an implementation-  *)
+(* shaped layer (ObjRun: per-chunk blocks of rows appended to a list, the  *)
+(* list stacked) refines the definition when the list is local to one      *)
+(* application and provably does NOT when the list lives in the object    *)
+(* (ObjectIsFunction, two conjuncts: the histories exported here tell the  *)
+(* two apart).  Value part: action VHistory - one Init / Select /      *)
+(* Diagonalize / Stack-of-Selects / Aggregate object and the compositions  *)
+(* Aggregate o Diagonalize, Diagonalize o Init applied to MaxApps          *)
+(* different dictionaries (Aggregate: every sequence of row counts), each  *)
+(* application against the independent formulations (HistIndependent).     *)
+(* Both are exported (HIST, HVAL) with the expected result of EVERY        *)
+(* application and replayed on one real object per history.                *)
+(*                                                                         *)
 (* Argument presentations: ArgForms lists, per constructor argument, the   *)
 (* forms (list, tuple, set, dict view, iterator, generator) in which the   *)
 (* harness presents the key collections; the expected values do not depend *)
@@ -45,10 +66,12 @@
 (***************************************************************************)
 EXTENDS Programs, TLC, Json
 
-CONSTANTS MaxLeaves, MaxOps, MaxOuts, MaxIns, MaxRows, Thin, LeafIdx, SampleMod, SamplePick, ValMod, ValPick
+CONSTANTS MaxLeaves, MaxOps, MaxOuts, MaxIns, MaxRows, Thin, LeafIdx, SampleMod, SamplePick, ValMod, ValPick,
+          MaxApps, HistMod, HistPick
 
-VARIABLES P, phase, call, scn
-vars == <<P, phase, call, scn>>
+\* hist: the row counts of the batches one Jac object has been applied to so far (program part)
+VARIABLES P, phase, call, scn, hist
+vars == <<P, phase, call, scn, hist>>
 
 \* ------------------------------------------------------------------ presentation shapes
 ShapeMenu(n) ==
@@ -85,7 +108,7 @@ OutDtype(kind, dt) == dt
 GradT(prog, ins, g) == LET adj == VJPAll(prog, g) IN [i \in Range(ins) |-> adj[i]]
 \* J: function output node -> matrix with m rows; result: input node -> matrix with m rows
 JacT(prog, ins, J, m) ==
-    LET adjs == [r \in 1..m |-> VJPAll(prog, [o \in DOMAIN J |-> J[o][r]])]
+    LET adjs == Force([r \in 1..m |-> VJPAll(prog, [o \in DOMAIN J |-> J[o][r]])])     \* (evaluated once)
     IN  [i \in Range(ins) |-> [r \in 1..m |-> adjs[r][i]]]
 
 \* reachability along argument edges on which gradient flows (not through detach / rg = FALSE)
@@ -157,14 +180,14 @@ DescSeq(S) == CHOOSE s \in PermSeqs(S) : \A i, j \in DOMAIN s : i < j => s[i] > 
 OutSeqs == {s \in UNION {[1..n -> Differentiable(P)] : n \in 1..MaxOuts} : \A i, j \in DOMAIN s : i # j => s[i] # s[j]}
 InCands(outs) == {i \in 1..Len(P) : RG(P)[i] /\ i \notin Range(outs)}
 
-Init == /\ P = <<>> /\ phase \in {"build", "vstart"} /\ call = NoCall /\ scn = [kind |-> "none"]
+Init == /\ P = <<>> /\ phase \in {"build", "vstart"} /\ call = NoCall /\ scn = [kind |-> "none"] /\ hist = <<>>
 
 AddLeaf == /\ phase = "build" /\ OnlyLeaves(P) /\ NumLeaves(P) < MaxLeaves
            /\ \E nd \in LeafExtensions(P) : LeafIndexOf(nd) \in LeafIdx /\ P' = Append(P, nd)
-           /\ UNCHANGED <<phase, call, scn>>
+           /\ UNCHANGED <<phase, call, scn, hist>>
 AddOp == /\ phase = "build" /\ NumLeaves(P) >= 1 /\ NumOps(P) < MaxOps
          /\ \E nd \in OpExtensions(P) : OkExtension(P, nd) /\ P' = Append(P, nd)
-         /\ UNCHANGED <<phase, call, scn>>
+         /\ UNCHANGED <<phase, call, scn, hist>>
 
 \* Thin = TRUE (quick tier): one batch size and one order of the inputs per (program, outs, input set),
 \* picked by a content hash, instead of all of them
@@ -181,7 +204,60 @@ ChooseCall ==
                     m \in (IF Thin THEN {1 + ((h \div 2) % MaxRows)} ELSE 1..MaxRows) :
                    call' = [outs |-> outs, ins |-> ins, m |-> m]
     /\ phase' = "call"
-    /\ UNCHANGED <<P, scn>>
+    /\ UNCHANGED <<P, scn, hist>>
+
+CallHash == SumSeq(Vals(P)[Len(P)]) + 3 * Len(P) + 7 * call.m
+            + 13 * SumSeq([i \in 1..Len(P) |-> IF P[i].op = "leaf" THEN P[i].size + i
+                                               ELSE i * P[i].a + (IF P[i].op \in Binary THEN 3 * P[i].b ELSE 1)])
+            + 19 * SumSeq([i \in DOMAIN call.outs |-> i * call.outs[i]])
+            + 23 * SumSeq([i \in DOMAIN call.ins |-> i * i * call.ins[i]])
+
+\* ------------------------------------------------------------------ histories of one Jac / Grad object (program part)
+\* cotangents of application n: another integer pattern for every application (HistBatchesDiffer), so that
+\* what an object kept from an earlier application cannot pass for the answer to the present one
+CtH(n, oi, r, e) == ((oi * 7 + r * 3 + e * 5 + r * e + 2 * n + n * oi) % 5) - 2
+HBatch(n, m) == Batch(LAMBDA oi, r, e : CtH(n, oi, r, e), call.outs, m)
+\* THE SPECIFICATION of application n of the object Jac(call.outs, call.ins, any chunk size), given that the
+\* object was applied to batches of hist[1], .., hist[n-1] rows before: the function JacT of batch n alone
+\* (ForceJ: the same value, evaluated once instead of at every use)
+ForceJ(J, m) == Force([i \in DOMAIN J |-> Force([r \in 1..m |-> Force(J[i][r])])])
+HistJac(n) == ForceJ(JacT(P, call.ins, HBatch(n, hist[n]), hist[n]), hist[n])
+
+\* the object as implemented: the rows of a batch are differentiated chunk by chunk (chunk size c; c = 0:
+\* one chunk), the block of rows of each chunk is appended to a list, the result is the list stacked.
+\* `kept` is what the object carries from one application to the next.  local = TRUE: the list belongs to
+\* the application (the design); local = FALSE: the list belongs to the object (the class of defect this
+\* region exists for: any memory of earlier applications that leaks into the result).
+Min2(a, b) == IF a <= b THEN a ELSE b
+RECURSIVE Blocks(_, _, _)
+Blocks(rows, c, s) == IF s > Len(rows) THEN <<>>
+                      ELSE <<SubSeq(rows, s, Min2(s + c - 1, Len(rows)))>> \o Blocks(rows, c, s + c)
+RECURSIVE VStackAll(_)
+VStackAll(list) == IF list = <<>> THEN <<>> ELSE Head(list) \o VStackAll(Tail(list))
+ObjApply(kept, rows, c, local) ==
+    LET list == (IF local THEN <<>> ELSE kept) \o Blocks(rows, IF c = 0 THEN Len(rows) ELSE c, 1)
+    IN  [kept |-> list, out |-> VStackAll(list)]
+\* rowsOf[k] = the specified rows of application k (for one input); the object after n applications
+RECURSIVE ObjRun(_, _, _, _)
+ObjRun(rowsOf, n, c, local) ==
+    IF n = 0 THEN [kept |-> <<>>, out |-> <<>>]
+    ELSE ObjApply(ObjRun(rowsOf, n - 1, c, local).kept, rowsOf[n], c, local)
+
+\* Histories are explored for the calls of one content-hash class (a third of the class whose calls are
+\* exported); Thin = TRUE: one next row count, different from the last one, picked by the hash; otherwise all.
+HistPicked == (CallHash % (3 * SampleMod)) = SamplePick
+NextRows(h) ==
+    LET S == (1..MaxRows) \ {h[Len(h)]}
+    IN  IF ~Thin THEN 1..MaxRows
+        ELSE IF S = {} THEN {h[Len(h)]}
+        ELSE {AscSeq(S)[1 + (((CallHash \div SampleMod) + 2 * Len(h) + SumSeq(h)) % Cardinality(S))]}
+ApplyAgain ==
+    /\ phase \in {"call", "hist"} /\ HistPicked
+    /\ LET h == IF phase = "call" THEN <<call.m>> ELSE hist IN
+         /\ Len(h) < MaxApps
+         /\ \E m \in NextRows(h) : hist' = Append(h, m)
+    /\ phase' = "hist"
+    /\ UNCHANGED <<P, call, scn>>
 
 \* ------------------------------------------------------------------ the value part of the universe
 SizeSeqs == UNION {[1..n -> {1, 2, 3, 4}] : n \in 1..3}
@@ -224,13 +300,85 @@ ValScenarios(sizes) ==
 VStart == /\ phase = "vstart"
           /\ \E s \in SizeSeqs : scn' = [kind |-> "sizes", sizes |-> s]
           /\ phase' = "vsizes"
-          /\ UNCHANGED <<P, call>>
+          /\ UNCHANGED <<P, call, hist>>
 VScenario == /\ phase = "vsizes"
              /\ \E x \in ValScenarios(scn.sizes) : scn' = x
              /\ phase' = "vscn"
-             /\ UNCHANGED <<P, call>>
+             /\ UNCHANGED <<P, call, hist>>
 
-Next == AddLeaf \/ AddOp \/ ChooseCall \/ VStart \/ VScenario
+\* ------------------------------------------------------------------ histories of one value-transform object
+\* inputs of application n: other integers for every application
+GValN(n, k, e) == GVal(k, e) + 10 * n + ((n * e + k) % 3)
+GDictN(sizes, K, n) == [k \in K |-> [e \in 1..sizes[k] |-> GValN(n, k, e)]]
+JValN(n, k, r, e) == JVal(k, r, e) + 10 * n + ((n + r * e) % 3)
+JDictN(sizes, m, n) == [k \in DOMAIN sizes |-> [r \in 1..m |-> [e \in 1..sizes[k] |-> JValN(n, k, r, e)]]]
+\* row counts of the successive batches one Aggregate object receives: every sequence
+RowSeqs == UNION {[1..a -> 1..3] : a \in 2..MaxApps}
+\* the objects: the five value transforms (Stack over members that are Selects of the input, so that the
+\* stacked rows depend on the input of the application) and two compositions
+HistDescs(sizes) ==
+    LET K == DOMAIN sizes IN
+    {[obj |-> "init"]}
+    \cup {[obj |-> "select", K |-> S] : S \in SUBSET K}
+    \cup {[obj |-> "diag", order |-> o] : o \in PermSeqs(K)}
+    \cup {[obj |-> "diaginit", order |-> o] : o \in PermSeqs(K)}
+    \cup {[obj |-> "agg", order |-> o, ms |-> q] : o \in PermSeqs(K), q \in RowSeqs}
+    \cup {[obj |-> "stack", ks |-> q] : q \in UNION {[1..c -> SUBSET K] : c \in 1..2}}
+    \cup {[obj |-> "aggdiag", order |-> o, order2 |-> o2] : o \in PermSeqs(K), o2 \in PermSeqs(K)}
+KeyHash(S) == SumSeq([k \in 1..3 |-> IF k \in S THEN k * k ELSE 0])
+OrdHash(o) == SumSeq([i \in DOMAIN o |-> i * o[i]])
+DescHash(sizes, d) ==
+    SumSeq(sizes) + 5 * Len(sizes)
+    + (CASE d.obj = "init"     -> 1
+         [] d.obj = "select"   -> 2 + 3 * KeyHash(d.K)
+         [] d.obj = "diag"     -> 3 + 7 * OrdHash(d.order)
+         [] d.obj = "diaginit" -> 4 + 5 * OrdHash(d.order)
+         [] d.obj = "agg"      -> 5 + 7 * OrdHash(d.order) + 11 * OrdHash(d.ms) + Len(d.ms)
+         [] d.obj = "stack"    -> 6 + SumSeq([i \in DOMAIN d.ks |-> i * (1 + KeyHash(d.ks[i]))])
+         [] OTHER              -> 7 + 7 * OrdHash(d.order) + 13 * OrdHash(d.order2))
+\* the history of one object: THE SPECIFICATION of every application is the transform's function of the
+\* input of that application alone
+HistOf(sizes, d) ==
+    LET K  == DOMAIN sizes
+        N  == SumSeq(sizes)
+        AN == 1..MaxApps
+        G(n) == GDictN(sizes, K, n)
+    IN  CASE d.obj = "init" ->
+               [kind |-> "hist", obj |-> "init", sizes |-> sizes, apps |-> [n \in AN |-> [expected |-> InitT(sizes)]]]
+          [] d.obj = "select" ->
+               [kind |-> "hist", obj |-> "select", sizes |-> sizes, K |-> d.K,
+                apps |-> [n \in AN |-> [input |-> G(n), expected |-> SelectT(G(n), d.K)]]]
+          [] d.obj = "diag" ->
+               [kind |-> "hist", obj |-> "diag", sizes |-> sizes, order |-> d.order,
+                apps |-> [n \in AN |-> [input |-> G(n), expected |-> DiagT(d.order, sizes, G(n))]]]
+          [] d.obj = "diaginit" ->
+               [kind |-> "hist", obj |-> "diaginit", sizes |-> sizes, order |-> d.order,
+                apps |-> [n \in AN |-> [expected |-> DiagT(d.order, sizes, InitT(sizes))]]]
+          [] d.obj = "agg" ->
+               [kind |-> "hist", obj |-> "agg", sizes |-> sizes, order |-> d.order, ms |-> d.ms,
+                apps |-> [n \in DOMAIN d.ms |->
+                            [m |-> d.ms[n], w |-> WVec(d.ms[n]), input |-> JDictN(sizes, d.ms[n], n),
+                             expected |-> AggT(d.order, sizes, JDictN(sizes, d.ms[n], n), WVec(d.ms[n]))]]]
+          [] d.obj = "stack" ->
+               [kind |-> "hist", obj |-> "stack", sizes |-> sizes, ks |-> d.ks,
+                apps |-> [n \in AN |-> [input |-> G(n),
+                                        expected |-> StackT([i \in DOMAIN d.ks |-> SelectT(G(n), d.ks[i])], sizes)]]]
+          [] OTHER ->
+               [kind |-> "hist", obj |-> "aggdiag", sizes |-> sizes, order |-> d.order, order2 |-> d.order2,
+                apps |-> [n \in AN |-> [input |-> G(n), w |-> WVec(N),
+                                        expected |-> AggT(d.order, sizes, DiagT(d.order2, sizes, G(n)), WVec(N))]]]
+\* thinning by content hash, one class in HistMod (the many row-count sequences of Aggregate: one in
+\* 4 HistMod; the few Init / Select / Diagonalize objects: one in HistMod / 4)
+PickMod(d) == IF d.obj = "agg" THEN 4 * HistMod
+              ELSE IF d.obj \in {"stack", "aggdiag"} THEN HistMod
+              ELSE IF HistMod >= 4 THEN HistMod \div 4 ELSE 1
+VHistory == /\ phase = "vsizes"
+            /\ \E d \in HistDescs(scn.sizes) : /\ (DescHash(scn.sizes, d) % PickMod(d)) = (HistPick % PickMod(d))
+                                               /\ scn' = HistOf(scn.sizes, d)
+            /\ phase' = "vhist"
+            /\ UNCHANGED <<P, call, hist>>
+
+Next == AddLeaf \/ AddOp \/ ChooseCall \/ ApplyAgain \/ VStart \/ VScenario \/ VHistory
 Spec == Init /\ [][Next]_vars
 
 \* ------------------------------------------------------------------ properties: Grad / Jac
@@ -264,16 +412,37 @@ Chains == phase = "call" =>
            s1 == JacT(P, ms, A0, call.m)
        IN  JacT(P, call.ins, s1, call.m) = JacA
 
+\* ------------------------------------------------------------------ properties: histories of one object
+\* (evaluated on the complete histories: their prefixes are the histories of the shorter ones)
+\* refinement: the object as implemented, with the list of blocks local to the application, returns the
+\* specified rows in every application, for every chunk size (0 = None) and every input; and the
+\* histories explored here tell an object that keeps the list apart from the specified one
+ObjectIsFunction == (phase = "hist" /\ Len(hist) = MaxApps) =>
+    LET HJ == Force([n \in DOMAIN hist |-> HistJac(n)]) IN
+    \A i \in Range(call.ins), c \in 0..(MaxRows + 1) :
+       LET rowsOf == Force([k \in DOMAIN hist |-> HJ[k][i]]) IN
+       /\ \A n \in DOMAIN hist : ObjRun(rowsOf, n, c, TRUE).out = rowsOf[n]
+       /\ \A n \in 2..Len(hist) : ObjRun(rowsOf, n, c, FALSE).out # rowsOf[n]
+\* two applications of one history never receive the same batch
+HistBatchesDiffer == (phase = "hist" /\ Len(hist) = MaxApps) =>
+    \A n1, n2 \in DOMAIN hist : (n1 # n2 /\ hist[n1] = hist[n2]) =>
+       \A o \in Range(call.outs) : HBatch(n1, hist[n1])[o] # HBatch(n2, hist[n2])[o]
+\* every application chains through every separating antichain (the composed object second << first)
+HistChains == (phase = "hist" /\ Len(hist) = MaxApps) =>
+    \A mid \in Cuts, n \in DOMAIN hist :
+       JacT(P, call.ins, JacT(P, AscSeq(mid), HBatch(n, hist[n]), hist[n]), hist[n]) = HistJac(n)
+
 \* ------------------------------------------------------------------ properties: value transforms
 \* independent formulations: Diagonalize = columns of diag(cat(g)); Stack row i restricted to the
 \* keys of member i is member i; Aggregate = slices of w^T . [J_1 .. J_n]
-DiagIsDiagonal == (phase = "vscn" /\ scn.kind = "diag") =>
-    LET osz  == [i \in DOMAIN scn.order |-> scn.sizes[scn.order[i]]]
-        flat == ConcatAdj(scn.input, scn.order)
+DiagIndep(order, sizes, input, expected) ==
+    LET osz  == [i \in DOMAIN order |-> sizes[order[i]]]
+        flat == ConcatAdj(input, order)
         N    == SumSeq(osz)
         D    == [r \in 1..N |-> [c \in 1..N |-> IF r = c THEN flat[r] ELSE 0]]
         off  == Offsets(osz)
-    IN  \A i \in DOMAIN scn.order : scn.expected[scn.order[i]] = ColSlice(D, off[i] + 1, osz[i])
+    IN  \A i \in DOMAIN order : expected[order[i]] = ColSlice(D, off[i] + 1, osz[i])
+DiagIsDiagonal == (phase = "vscn" /\ scn.kind = "diag") => DiagIndep(scn.order, scn.sizes, scn.input, scn.expected)
 StackRows == (phase = "vscn" /\ scn.kind = "stack") =>
     \A k \in DOMAIN scn.expected : \A i \in DOMAIN scn.members :
        scn.expected[k][i] = (IF k \in DOMAIN scn.members[i] THEN scn.members[i][k] ELSE Zeros(scn.sizes[k]))
@@ -295,12 +464,32 @@ ValuesLinear == (phase = "vscn") =>
                                   = CombJ(scn.expected, scn.expectedK)
       [] OTHER               -> TRUE
 
+\* every application of every object of a value history, against the independent formulations
+HistIndependent == (phase = "vhist") =>
+    LET sz == scn.sizes
+        K  == DOMAIN sz
+    IN  \A n \in DOMAIN scn.apps :
+          LET a == scn.apps[n] IN
+          CASE scn.obj = "init"     -> DOMAIN a.expected = K /\ \A k \in K : a.expected[k] = Ones(sz[k])
+            [] scn.obj = "select"   -> DOMAIN a.expected = scn.K /\ \A k \in scn.K : a.expected[k] = a.input[k]
+            [] scn.obj = "diag"     -> DiagIndep(scn.order, sz, a.input, a.expected)
+            [] scn.obj = "diaginit" -> /\ DiagIndep(scn.order, sz, [k \in K |-> Ones(sz[k])], a.expected)
+                                       /\ a.expected = scn.apps[1].expected
+            [] scn.obj = "agg"      -> /\ Len(a.w) = a.m /\ \A k \in K : Len(a.input[k]) = a.m
+                                       /\ \A k \in K : a.expected[k] = VecMat(a.w, a.input[k], sz[k])
+            [] scn.obj = "stack"    -> /\ DOMAIN a.expected = UNION {scn.ks[i] : i \in DOMAIN scn.ks}
+                                       /\ \A k \in DOMAIN a.expected : \A i \in DOMAIN scn.ks :
+                                            a.expected[k][i] = (IF k \in scn.ks[i] THEN a.input[k] ELSE Zeros(sz[k]))
+            [] OTHER                -> LET osz == [i \in DOMAIN scn.order2 |-> sz[scn.order2[i]]]
+                                           off == Offsets(osz)
+                                       IN  \A i \in DOMAIN scn.order2 :
+                                             LET k == scn.order2[i] IN
+                                             a.expected[k] = [e \in 1..sz[k] |-> a.w[off[i] + e] * a.input[k][e]]
+\* the inputs of the applications of one history differ from each other (a remembered input or result is visible)
+HistInputsDiffer == (phase = "vhist" /\ scn.obj \in {"select", "diag", "stack", "aggdiag"}) =>
+    \A n1, n2 \in DOMAIN scn.apps : n1 # n2 => \A k \in DOMAIN scn.sizes : scn.apps[n1].input[k] # scn.apps[n2].input[k]
+
 \* ------------------------------------------------------------------ export
-CallHash == SumSeq(Vals(P)[Len(P)]) + 3 * Len(P) + 7 * call.m
-            + 13 * SumSeq([i \in 1..Len(P) |-> IF P[i].op = "leaf" THEN P[i].size + i
-                                               ELSE i * P[i].a + (IF P[i].op \in Binary THEN 3 * P[i].b ELSE 1)])
-            + 19 * SumSeq([i \in DOMAIN call.outs |-> i * call.outs[i]])
-            + 23 * SumSeq([i \in DOMAIN call.ins |-> i * i * call.ins[i]])
 CallScenario ==
     [prog |-> P, sizes |-> Sizes(P), outs |-> call.outs, ins |-> call.ins, m |-> call.m,
      ctA |-> A0, ctB |-> B0, jacA |-> JacA, jacB |-> JacB, jacC |-> JacC,
@@ -314,5 +503,14 @@ ValHash == SumSeq(scn.sizes) + 5 * Len(scn.sizes)
            + (IF scn.kind = "select" THEN 3 * Cardinality(scn.K) + SumSeq([k \in 1..3 |-> IF k \in scn.K THEN k * k ELSE 0]) ELSE 0)
            + (IF scn.kind = "stack" THEN SumSeq([i \in DOMAIN scn.members |-> i * (1 + SumSeq([k \in 1..3 |-> IF k \in DOMAIN scn.members[i] THEN k * k ELSE 0]))]) ELSE 0)
 ExportVal == (phase = "vscn" /\ (ValHash % ValMod) = ValPick) => PrintT(<<"VAL", ToJson(scn)>>)
+HistScenario ==
+    [prog |-> P, sizes |-> Sizes(P), outs |-> call.outs, ins |-> call.ins, ms |-> hist,
+     apps |-> [n \in DOMAIN hist |->
+                 LET J == HistJac(n) IN
+                 [m |-> hist[n], ct |-> HBatch(n, hist[n]), jac |-> J, w |-> WVec(hist[n]),
+                  agg |-> AggT(call.ins, Sizes(P), J, WVec(hist[n]))]],
+     cuts |-> {AscSeq(mid) : mid \in Cuts}]
+ExportHist == (phase = "hist" /\ Len(hist) = MaxApps) => PrintT(<<"HIST", ToJson(HistScenario)>>)
+ExportHistVal == (phase = "vhist") => PrintT(<<"HVAL", ToJson(scn)>>)
 ExportMenu == (phase = "vstart") => PrintT(<<"MENU", ToJson([menu |-> [n \in 1..8 |-> ShapeMenu(n)], forms |-> ArgForms])>>)
 =============================================================================
